@@ -20,7 +20,11 @@
 #include "common.hpp"
 #include "sched.hpp"
 
+#include <cerrno>
+#include <chrono>
 #include <csignal>
+#include <cstring>
+#include <poll.h>
 #include <set>
 #include <unordered_set>
 #include <sstream>
@@ -450,25 +454,21 @@ int main(int argc, char** argv) {
       static int sfe = -1;
       sex = &ex;
       sfe = pe[1];
+      // async-signal-safe handlers: no allocation (a crash inside malloc/free holds the arena lock)
+      static auto raw = [](const char* tail) {
+        if (sex) (void)!write(sfe, sex->events.data(), sex->events.size());
+        (void)!write(sfe, tail, std::strlen(tail));
+      };
       std::signal(SIGABRT, [](int) {
-        if (sex) {
-          write_all(sfe, sex->events);
-          write_all(sfe, "{\"e\":\"crash\",\"sig\":6}\n");
-        }
+        raw("{\"e\":\"crash\",\"sig\":6}\n");
         _exit(70);
       });
       std::signal(SIGSEGV, [](int) {
-        if (sex) {
-          write_all(sfe, sex->events);
-          write_all(sfe, "{\"e\":\"crash\",\"sig\":11}\n");
-        }
+        raw("{\"e\":\"crash\",\"sig\":11}\n");
         _exit(71);
       });
       std::signal(SIGALRM, [](int) {
-        if (sex) {
-          write_all(sfe, sex->events);
-          write_all(sfe, "{\"e\":\"hang\"}\n");
-        }
+        raw("{\"e\":\"hang\"}\n");
         _exit(72);
       });
       run_exec(nt, no, toks, rng, rbudget, ex);
@@ -478,17 +478,37 @@ int main(int argc, char** argv) {
     }
     close(pe[1]);
     close(po[1]);
-    auto slurp = [](int fd) {
+    // watchdog on the parent's side as well: a child that neither finishes nor dies within 45 s is killed
+    const auto deadline = std::chrono::steady_clock::now() + std::chrono::seconds(45);
+    bool killed = false;
+    auto slurp = [&](int fd) {
       std::string s;
       char buf[65536];
-      ssize_t n;
-      while ((n = read(fd, buf, sizeof buf)) > 0) s.append(buf, static_cast<std::size_t>(n));
+      while (true) {
+        struct pollfd pfd {fd, POLLIN, 0};
+        const auto left = std::chrono::duration_cast<std::chrono::milliseconds>(deadline - std::chrono::steady_clock::now()).count();
+        const int pr = poll(&pfd, 1, left > 0 ? static_cast<int>(left) : 0);
+        if (pr == 0) {
+          kill(pid, SIGKILL);
+          killed = true;
+          s.resize(s.rfind('\n') == std::string::npos ? 0 : s.rfind('\n') + 1);  // drop a partial line
+          break;
+        }
+        if (pr < 0) {
+          if (errno == EINTR) continue;
+          break;
+        }
+        const ssize_t n = read(fd, buf, sizeof buf);
+        if (n <= 0) break;
+        s.append(buf, static_cast<std::size_t>(n));
+      }
       close(fd);
       return s;
     };
     // read both pipes (events may be large: drain it first in a loop with poll-free approach)
     std::string es = slurp(pe[0]);
     std::string os = slurp(po[0]);
+    if (killed && es.find("\"hang\"") == std::string::npos && es.find("\"crash\"") == std::string::npos) es += "{\"e\":\"hang\"}\n";
     int status = 0;
     waitpid(pid, &status, 0);
     if (!(WIFEXITED(status) && WEXITSTATUS(status) == 0)) {
